@@ -11,7 +11,7 @@ def scripts_for(tier, rng):
             for i in range(n)]
 
 
-def run(prop, tier, rng):
+def run(prop, tier, rng, only=None):
     """-> (violations, extra, mc-stats, trace-stats)"""
     violations = []
     mcs = dict(distinct=0, generated=0)
@@ -41,7 +41,7 @@ def run(prop, tier, rng):
         else:
             sys.stderr.write(q.stdout[-2000:])
             raise vlib.ToolError("tlapm failed")
-    scripts = scripts_for(tier, rng)
+    scripts = [only] * 200 if only else scripts_for(tier, rng)      # a replay repeats the scenario: threads decide
     by_id = {s["id"]: s for s in scripts}
     d = vlib.workdir("drv_flag")
     sp, tp = os.path.join(d, "scripts.ndjson"), os.path.join(d, "traces.ndjson")
